@@ -116,7 +116,8 @@ def register(PROPS):
         PROPS[pid] = {
             "gens": [{"id": pid, "quick": 2500, "thorough": 60000, "thorough_seeds": 12, "race": True, "gomaxprocs": [1, 2, 16]}],
             "compare": mk_compare(pid),
-            "generated_layer": pid in ("C03", "C04"),   # topicsIntersect; the ring buffer behind the replayers
+            # topicsIntersect; the ring buffer behind the replayers; removeSubscriber / closeSubscribers / the fan-out of joe.go
+            "generated_layer": True,
             # C06 forbids every panic; C07 forbids a panic of a repeated or concurrent Shutdown call, and one that kills Joe's own
             # goroutine (no pending call returns any more)
             "on_crash": ("property" if pid == "C06" else
